@@ -76,7 +76,8 @@ def install(env):
         j = it.ctx.fresh("q", z3.IntSort())
         it.ctx.pure += 1
         try:
-            body = ops.truth_term(it.call(pred, [SInt(j)], {}))
+            lo_nonneg = (isinstance(lo, int) and lo >= 0) or (isinstance(lo, SV) and getattr(lo, "nonneg", False))
+            body = ops.truth_term(it.call(pred, [SInt(j, nonneg=lo_nonneg)], {}))
         finally:
             it.ctx.pure -= 1
         if isinstance(body, bool):
